@@ -125,6 +125,21 @@ def _build_pool():
             pth = os.path.join(d, '%s_%s%s' % (tag, suffix, ext))
             open(pth, 'wb').write(S.encode(c))
             add('%s_%s' % (tag, suffix), pth)
+    # a vertical-diffusivity file over the night 31 Dec 1999 -> 1 Jan 2000 (two-digit years: 99365, then 00001), with its
+    # extension and without
+    c = dict(fmt='vertical_diffusivity', nx=2, ny=2, nz=2, flags=[[99365, 2200], [99365, 2300], [1, 0]],
+             data=[[[camx.rand_f32_bits(r0) for _ in range(4)] for _ in range(2)] for _ in range(3)])
+    for suffix, ext in (('own', '.vertical_diffusivity'), ('noext', '')):
+        pth = os.path.join(d, 'kvny_%s%s' % (suffix, ext))
+        open(pth, 'wb').write(S.encode(c))
+        add('kvny_%s' % suffix, pth)
+    # a gridded emissions file of one layer whose grid header says nz = 0 (older two-dimensional files)
+    c2d = camx.gen_uamiv_emis2d(r0)
+    c2d['hdr_nz'] = 0
+    for suffix, ext in (('own', '.uamiv'), ('noext', '')):
+        pth = os.path.join(d, 'uamiv2d_%s%s' % (suffix, ext))
+        open(pth, 'wb').write(camx.ref_encode_uamiv(c2d))
+        add('uamiv2d_%s' % suffix, pth)
     # a little-endian gridded file (history material only: opened with format='uamiv', endian='little')
     cu = camx.gen_uamiv(r0)
     pth = os.path.join(d, 'x_uamivle.uamiv')
@@ -380,6 +395,44 @@ def _run_history(pool, classes, hist, probe, named, lowfd=None):
     return res
 
 
+def _run_mf(pool, keys):
+    """the multi-file front end on files of different kinds: every path is detected on its own, as pncopen(path) does it"""
+    import shutil
+    import tempfile
+    import PseudoNetCDF as pnc
+    d = tempfile.mkdtemp(prefix='pncverif_c15mf_')
+    try:
+        return _run_mf_in(pnc, pool, keys, d)
+    finally:
+        shutil.rmtree(d, True)
+
+
+def _run_mf_in(pnc, pool, keys, d):
+    # the file of the pool and its netCDF copy written by the library (a second "hour" of another kind)
+    first = os.path.join(d, 'hour00' + (os.path.splitext(pool[keys[0]])[1] or '.bin'))
+    import shutil
+    shutil.copy(pool[keys[0]], first)
+    second = os.path.join(d, 'hour01.nc')
+    pnc.pncwrite(pnc.pncopen(first), second, format='NETCDF3_CLASSIC', verbose=0).close()
+    paths = [first, second]
+    keys = [os.path.basename(p) for p in paths]
+    alone = [pnc.pncopen(p) for p in paths]
+    names = [k for k in alone[0].variables if k not in ('TFLAG', 'ETFLAG') and all(
+        k in f.variables and tuple(f.variables[k].dimensions)[:1] == ('TSTEP',) for f in alone)]
+    out = []
+    for order in ([0, 1], [1, 0]):
+        try:
+            mf = pnc.pncmfopen([paths[i] for i in order], stackdim='TSTEP')
+            for k in names:
+                want = np.concatenate([np.asarray(alone[i].variables[k][:]) for i in order], axis=0)
+                got = np.asarray(mf.variables[k][:])
+                if got.shape != want.shape or not np.array_equal(got, want):
+                    out.append('%s: %s differs from the files opened one by one' % ([keys[i] for i in order], k))
+        except Exception as e:
+            out.append('%s: pncmfopen raised %s %s although each file opens alone' % ([keys[i] for i in order], type(e).__name__, str(e)[:80]))
+    return dict(readers=[type(f).__name__ for f in alone], nvars=len(names), bad=out)
+
+
 def _fresh_named(pool, classes, key, named):
     import PseudoNetCDF as pnc
     cid = {c: i for i, c in enumerate(classes)}
@@ -403,7 +456,7 @@ NAMED = {'uamiv': 'uamiv', 'lateral_boundary': 'lateral_boundary', 'ffi1001': 'f
          'ffitight': 'ffi1001',
          'bndgen1': 'lateral_boundary', 'bndgen2': 'lateral_boundary',
          'humidity_own': 'humidity', 'vertical_diffusivity_own': 'vertical_diffusivity',
-         'plain': 'netcdf', 'ioapi': 'ioapi'}
+         'plain': 'netcdf', 'ioapi': 'ioapi', 'uamiv2d': 'uamiv', 'kvny_own': 'vertical_diffusivity'}
 
 
 def _named_for(key):
@@ -499,8 +552,12 @@ def gen(rng, tier):
                   ([['bpchp_own', None]], 'bpchn_own'), ([['bpchu_own', None], ['bpchp_noext', 'bpch']], 'bpchn_own'),
                   ([], 'ffitight_own'), ([['ffi1001_own', None]], 'ffitight_noext'), ([['ffitight_noext', 'ffi1001']], 'ffitight_own'),
                   ([['bndgen2_own', None]], 'bndgen1_noext'), ([['bndgen1_own', None]], 'bndgen2_own'),
-                  ([['bndgen2_noext', 'lateral_boundary']], 'bndgen1_own')]:
+                  ([['bndgen2_noext', 'lateral_boundary']], 'bndgen1_own'),
+                  ([], 'uamiv2d_own'), ([['uamiv_own', None]], 'uamiv2d_noext'), ([], 'kvny_own'), ([['hum_a_own', None]], 'kvny_own')]:
         out.append(dict(hist=h, probe=pr))
+    # the multi-file front end without a format on a gridded CAMx file and its netCDF copy (both orders)
+    if 'uamiv_own' in P['files']:
+        out.append(dict(hist=[], probe='uamiv_own', mf=['uamiv_own']))
     # the history that used to break: an .nc open before an extension-less netCDF probe
     out.append(dict(hist=[['plain_own', None]], probe='ioapi_noext'))
     out.append(dict(hist=[['plain_own', None], ['plain_own', None], ['uamiv_nc', None]], probe='plain_noext'))
@@ -521,6 +578,8 @@ def impl(case):
     named = _named_for(case['probe'])
     res = _in_child(_run_history, pool, classes, case['hist'], case['probe'], named, case.get('lowfd'))
     res['fresh'] = _in_child(_fresh, pool, classes, case['probe'], any(k == REG for k, _ in case['hist']))
+    if case.get('mf'):
+        res['mf'] = _in_child(_run_mf, pool, case['mf'])
     if named and any(k == case['probe'] and fmt == named for k, fmt in case['hist']):
         # the probe is also opened with its format named somewhere in the history: what a fresh process gives for that
         res['fresh_named'] = _in_child(_fresh_named, pool, classes, case['probe'], named)
@@ -588,6 +647,8 @@ def agree(case, out, res):
 
 
 def oracle(case, res):
+    if res.get('mf', {}).get('bad'):
+        return 'pncmfopen on files of different kinds: ' + '; '.join(res['mf']['bad'])
     probe = res['steps'][-1]
     fresh = res['fresh']
     if ('err' in probe) != ('err' in fresh):
